@@ -6,7 +6,7 @@ branch c13, over the constants regenerated into `NV.Gen.C13`.  Quantification is
 buffer state satisfying the stated invariant (which the initial state satisfies and every step preserves), every
 byte stream and every way of cutting it into reads.
 -/
-import NV.C13.Lemmas10
+import NV.C13.Lemmas11
 
 namespace NV.C13
 
@@ -278,5 +278,25 @@ theorem telnet_schedule_independent (ops₁ ops₂ : List FOp) (f₁ f₂ : F)
   rw [e₂, List.append_nil] at s2
   rw [l1 d₁, l2 d₂, s1, s2, hs]
   exact ⟨rfl, rfl⟩
+
+/-- **segmentation_independent, end to end (PORT_ASCII).**  For any schedule of client sends, read events (and
+    extractions, which do nothing on this port) on a fresh ascii connection such that at every read the buffer is not
+    full (`clean`: no piece longer than MAX_TEXT-2 has accumulated — otherwise the over-long line is discarded):
+    the lines passed to process_input so far are exactly `asciiLines received`, whatever the segmentation; the partial
+    line kept between reads is the unterminated rest of the stream; `received ++ socket = sent`. -/
+theorem ascii_lines_delivered (ops : List FOp) (f : F) (h : fRun { s := S.init .ascii } ops = .ok f)
+    (hc : f.clean = true) :
+    f.delivered = asciiLines f.received ∧ f.received ++ f.s.sock = f.sent ∧
+    (∀ x, asciiLines (f.received ++ x) = f.delivered ++ asciiLinesAux [] (pend f.s ++ x)) := by
+  have k := asciiK_run ops _ f (fun _ => asciiK_init) h hc
+  have h0 := k.lines []
+  simp only [List.append_nil] at h0
+  rw [asciiLinesAux_pending k.nolf, List.append_nil] at h0
+  exact ⟨h0, k.sentEq, fun x => (k.lines x).symm⟩
+
+/-- non-vacuity: "hel", "lo\n" in two reads -/
+example : (fRun { s := S.init .ascii } [.send [104, 101, 108], .read, .send [108, 111, 10], .read]).toOption.map
+    (fun f => (f.clean, f.delivered, f.s.sock)) = some (true, [[104, 101, 108, 108, 111]], []) := by
+  set_option maxRecDepth 1000000 in decide
 
 end NV.C13
